@@ -58,6 +58,8 @@ def world_info(spec, key=None):
             "n_sources": len(w.ds.sources) if w.ds is not None else 0,
             "vf_names": [],
             "sparse": bool(w.ds is not None and any(s.layerName for s in w.ds.sources)),
+            "lib_skip": bool(any(f.lib.get("public.skipExportGlyphs") for f in w.fonts)
+                             or (w.ds is not None and w.ds.lib.get("public.skipExportGlyphs"))),
             "lib_filters": sorted({str(d.get("name", "")).replace(" ", "").lower()
                                    for f in w.fonts
                                    for d in f.lib.get("com.github.googlei18n.ufo2ft.filters", [])}),
